@@ -214,12 +214,22 @@ func init() {
 			buf = make([]byte, 0, 64)
 		}
 		form, neg, coeff, exp := a.X.Decompose(buf)
-		return Outcome{Aux: fmt.Sprintf("%d %v %x %d", form, neg, coeff, exp)}
+		o := Outcome{Aux: fmt.Sprintf("%d %v %x %d", form, neg, coeff, exp)}
+		// the returned slice belongs to the caller: writing to it must not reach
+		// the Decimal (checked by the operand / shared-memory snapshots)
+		for i := range coeff {
+			coeff[i] = 0xff
+		}
+		return o
 	})
 	reg("MarshalText", KRead1, false, false, false, func(a *Args) Outcome {
 		b, err := a.X.MarshalText()
 		v, err2 := a.X.Value()
-		return Outcome{Aux: fmt.Sprintf("%s|%v", b, v), Err: errText(err) + errText(err2)}
+		o := Outcome{Aux: fmt.Sprintf("%s|%v", b, v), Err: errText(err) + errText(err2)}
+		for i := range b {
+			b[i] = '#'
+		}
+		return o
 	})
 	// read-only BigInt methods on the coefficients of (possibly shared) operands
 	reg("CoeffRead", KRead2, false, false, false, func(a *Args) Outcome {
@@ -252,6 +262,20 @@ func init() {
 		}
 		o.DVal = DecVal(a.D)
 		return o
+	})
+	reg("ShouldAddOne", KRead1, false, false, false, func(a *Args) Outcome {
+		out := ""
+		for _, name := range RounderNames {
+			r := rounders[name]
+			for half := -1; half <= 1; half++ {
+				out += fmt.Sprint(r.ShouldAddOne(&a.X.Coeff, a.X.Negative, half))[:1]
+			}
+		}
+		return Outcome{Aux: out}
+	})
+	reg("RounderRound", KCtx2, false, false, true, func(a *Args) Outcome {
+		res := a.C.Rounding.Round(a.C, a.D, a.X, a.C.Precision%2 == 0)
+		return Outcome{Cond: uint32(res), DVal: DecVal(a.D)}
 	})
 	reg("Modf", KModf, false, false, true, func(a *Args) Outcome {
 		a.X.Modf(a.I, a.F)
